@@ -33,7 +33,10 @@ EXPLANATION = (
     "and whether the operator was built from the head of the remaining plan or from a member of the slot list; a set that is the union of "
     "several kinds stands for each of them. The applicability "
     "test is asked of the candidate's operator on the step's pre-state. A test that sits inside the walk over the members (one member at a time, early "
-    "return) counts like one on accumulated sets: in a scenario where two sets share an element some non-nop member is walked. C15.members -- every "
+    "return) counts like one on accumulated sets; with should_validate_concurrency_constraint set (the flag is the public parameter, followed through "
+    "helpers / partial) a candidate one of whose parameters is a parameter of a member of the step is rejected too: the test compares ALL parameters of "
+    "the head of the remaining plan (no slice, no single position) with the parameters of ALL members (JointActionCall(<slot list>).joint_parameters or "
+    "collected member by member). A test inside the walk counts like one on accumulated sets: in a scenario where two sets share an element some non-nop member is walked. C15.members -- every "
     "walk over the members of the slot list (or over a container filled member by member) that builds operators / extracts their effects is complete: no "
     "slice / islice, no filter but the nop test, not left early while all tests pass, every non-nop member's iteration builds the operator, extracts and "
     "hands on; the accumulated sets are not overwritten per member. C15.footprint -- no effect group of an operator is skipped when its add / delete / "
@@ -74,6 +77,7 @@ class _Ctx:
             raise AnalysisError(f"{self.K.raw.qn}: no JointActionCall is built from a local slot list")
         self.slot_ids = {id(o) for o in self.slot_nodes}
         self.V = U.Verdict(repo, self.kf, self.plan, self.slot_ids, self.ex, self.nop)
+        self.V.flag_param = self.K.roles.get("FLAG")
         # walks over the members of a step (C15.members; the guard scenarios use them too)
         self.M = U.Members(repo, self.kf, self.p, self.g, self.slot_ids, self.V, self.ex, self.agents)
         self.V.member_walks = [(self.g.node_of(w.node), self.M.nop_atom(w), self.M.body_nodes(w)) for w in self.M.walks
@@ -158,6 +162,8 @@ def rule_guard(repo: Repo) -> RuleResult:
     scenarios: List[Tuple[str, Dict[str, bool]]] = [("slot-occupied", {"occupied": True}), ("inapplicable", {"applicable": False})]
     for a, b in U.REQUIRED_PAIRS:
         scenarios.append((f"interference:{a}&{b}", {"pair:" + U.pair_name(a, b): True, "nonempty:" + a: True, "nonempty:" + b: True}))
+    # the shared-object concurrency constraint: with the flag set, a candidate one of whose parameters is a parameter of a member of the step
+    scenarios.append(("shared-object", {"pair:" + U.pair_name("acc.params", "next.params"): True, "flag": True}))
     reach = {name: V.reach(sc) for name, sc in scenarios}
     good = V.reach({"occupied": False, "applicable": True, "pair:*": False})
     if x.opaque and any(n in reach[name] for n in later for name, _sc in scenarios):
@@ -177,7 +183,10 @@ def rule_guard(repo: Repo) -> RuleResult:
             for b in bad:
                 r.fail(Finding("C15.guard", x.c, f"slot-store-despite:{b}",
                                f"{unparse(s, 70)} can add a further action to the step although: {b} "
-                               f"(tests recognised: {sorted(V.pairs_seen)}; e.g. two actions writing the same fluent end up in one step)", node=s),
+                               f"(tests recognised: {sorted(V.pairs_seen)}; e.g. "
+                               + ("two actions of different agents that work on the same object end up in one step although the concurrency constraint is on: the test "
+                                  "must compare ALL parameters of the candidate with ALL parameters of the members, under the caller's flag)" if b == "shared-object"
+                                  else "two actions writing the same fluent end up in one step)"), node=s),
                        {"pairs_found": sorted(V.pairs_seen)})
     # the applicability test: candidate's operator, step pre-state
     isapp = repo.find_method("Operator", "is_applicable")
@@ -714,7 +723,7 @@ def rule_members(repo: Repo) -> RuleResult:
     V.reach(GOOD)
     M = x.M
     rel = [w for w in M.walks if w.relevant]
-    acc_ops = [(e, role) for a, b, ra, rb in V.pair_operands for e, role in ((a, ra), (b, rb)) if role.split(".")[0] in ("acc", "mixed")]
+    acc_ops = [(e, role) for a, b, ra, rb in V.pair_operands for e, role in ((a, ra), (b, rb)) if role.split(".")[0] in ("acc", "mixed") and not role.endswith(".params")]
     r.site(x.c.qn + " [walks over the members of a step]")
     if not rel:
         if acc_ops:
